@@ -128,11 +128,26 @@ func bigSubs(r *prng.Rand, total int) []uSub {
 
 // libSubLists builds the same structure through the library's API.
 func libSubLists(subs []uSub) (uePolicyContainer.UEPolicySectionManagementListContent, error) {
+	return libSubListsT(subs, false)
+}
+
+// libSubListsT: with template=true ONE sublist value is filled again and again and appended
+// by value each time (AppendSublist copies it), the way a builder loop with a variable declared
+// outside the loop works; the copies already appended must keep their own PLMN.
+func libSubListsT(subs []uSub, template bool) (uePolicyContainer.UEPolicySectionManagementListContent, error) {
 	var lc uePolicyContainer.UEPolicySectionManagementListContent
+	var tmpl uePolicyContainer.UEPolicySectionManagementSubList
 	for _, s := range subs {
 		var sl uePolicyContainer.UEPolicySectionManagementSubList
+		if template {
+			tmpl.UEPolicySectionManagementSubListContents = nil
+			sl = tmpl // value copy of the template as it is (shares whatever it points to)
+		}
 		if err := sl.SetPlmnDigit(s.mcc, s.mnc); err != nil {
 			return nil, err
+		}
+		if template {
+			tmpl = sl
 		}
 		for _, in := range s.instrs {
 			var li uePolicyContainer.Instruction
@@ -202,10 +217,19 @@ func c18Command(c *core.Ctx, k *core.Case) {
 	}
 	pti := r.Byte()
 	c.Eval(1)
-	lc, err := libSubLists(model)
+	lc, err := libSubListsT(model, k.I[0]&8 == 8)
 	if err != nil {
 		c.Fail(k, "setter-rejects-valid-plmn", err.Error())
 		return
+	}
+	// the built structure itself (before any encoding): every sublist reports its own PLMN
+	for i, s := range model {
+		if i < len(lc) && lc[i].Mcc != nil && lc[i].Mnc != nil {
+			if mcc, mnc := lc[i].GetPlmnDigit(); mcc != s.mcc || mnc != s.mnc {
+				c.Fail(k, "built-sublist-plmn", fmt.Sprintf("sublist %d of the list built through the API reports PLMN %d/%d, it was set to %d/%d (%d sublists, one sublist value filled repeatedly and appended by value: %v)", i, mcc, mnc, s.mcc, s.mnc, len(model), k.I[0]&8 == 8))
+				break
+			}
+		}
 	}
 	content, err := lc.MarshalBinary()
 	if err != nil {
